@@ -310,7 +310,17 @@ func (e *Engine) specFunc(pkg, name string) *SpecFunc {
 	if s, ok := e.specs["::"+name]; ok {
 		return s
 	}
-	return nil
+	// a spec function of another package, if the name is unique in the repository
+	var found *SpecFunc
+	for _, s := range e.specs {
+		if s.Name == name {
+			if found != nil {
+				return nil
+			}
+			found = s
+		}
+	}
+	return found
 }
 
 func (e *Engine) predFor(pkg, name string) *SpecFunc {
@@ -896,6 +906,22 @@ func (e *Engine) callMod(ms *ModSet, caller *ssa.Function, c *ssa.CallCommon) {
 		}
 		return
 	case *ssa.Function:
+		if strings.HasPrefix(v.String(), "sync/atomic.") && len(c.Args) > 0 {
+			if strings.HasPrefix(v.Name(), "Add") || strings.HasPrefix(v.Name(), "Store") || strings.HasPrefix(v.Name(), "Swap") || strings.HasPrefix(v.Name(), "CompareAndSwap") {
+				if k, loc, ok := storeKey(c.Args[0]); ok {
+					if loc != nil {
+						if ms.locals != nil {
+							ms.locals[loc] = true
+						}
+					} else {
+						ms.keys[k] = true
+					}
+				} else {
+					ms.all = true
+				}
+			}
+			return
+		}
 		if !e.inRepo(v) {
 			if con := e.contractForCall(v, c); con != nil {
 				e.contractMod(ms, con, v, fnPkgPath(caller))
